@@ -490,8 +490,9 @@ func (c *Compiler) applyUsesToNode(mod, nod, use parse.Node, parentStatus schema
 	if err != nil {
 		c.error(use, err)
 	}
-	if gmod == mod {
-		// Local grouping. Search the grouping space of the local node,
+	if gmod == mod || gmod == use.Root() {
+		// Local grouping (of the module, or of the submodule the uses
+		// is written in). Search the grouping space of the local node,
 		// not just the module globals. Also check for status conflicts
 		group, ok = nod.LookupGrouping(gname.Local)
 	} else {
